@@ -192,15 +192,20 @@ def _concurrent_scenario():
             k = self.params["k"]
             _EXEC[0] += 1
             base = 0x20000000 + 64 * _EXEC[0] + (id(rt) & 0xfff) * 0x10000
-            state = {"next": 0, "last": None}
+            state = {"next": 0, "drawn": []}
 
             def scripted(n):
-                # environment answer: a fresh value (default) or the value drawn last (a collision attempt)
-                opt = rt.env_choice("env.urandom", str(n), ["fresh", "same-as-last"]) if state["last"] is not None else 0
+                # environment answer: a fresh value (default) or one of the three values drawn most recently
+                # by anybody (a collision attempt against an earlier draw of this or of the other registry)
+                opts = ["fresh"] + [f"repeat-{i + 1}-back" for i in range(min(3, len(state["drawn"])))]
+                opt = rt.env_choice("env.urandom", str(n), opts) if len(opts) > 1 else 0
                 if opt == 0:
                     state["next"] += 1
-                    state["last"] = ((base + state["next"]) & 0xffffffff).to_bytes(4, "big")
-                return state["last"]
+                    v = ((base + state["next"]) & 0xffffffff).to_bytes(4, "big")
+                else:
+                    v = state["drawn"][-opt]
+                state["drawn"].append(v)
+                return v
             shims.URANDOM.script = scripted
             out = {}
             rt.observations["out"] = out
